@@ -994,4 +994,24 @@ theorem sum_le_length_mul (B : Rat) : ∀ (c : Vec), (∀ x ∈ c, x ≤ B) → 
     push_cast
     linarith
 
+theorem lift_mem_or_zero (pkg : List Nat) (row : Vec) (u : Nat) : lift pkg row u ∈ row ∨ lift pkg row u = 0 := by
+  unfold lift
+  cases pkg.idxOf? u with
+  | none => exact Or.inr rfl
+  | some i =>
+    by_cases h : i < row.length
+    · exact Or.inl (getD_mem row i h)
+    · right
+      simp only [List.getD_eq_getElem?_getD]
+      rw [List.getElem?_eq_none (not_lt.mp h)]; rfl
+
+theorem remapRow_nonneg (src dst : List Nat) (row out : Vec) (h : remapRow src dst row = .ok out)
+    (hn : ∀ x ∈ row, 0 ≤ x) : ∀ x ∈ out, 0 ≤ x := by
+  obtain ⟨_, rfl⟩ := (remapRow_ok_iff src dst row out).mp h
+  intro x hx
+  obtain ⟨u, _, rfl⟩ := List.mem_map.mp hx
+  rcases lift_mem_or_zero src row u with h1 | h1
+  · exact hn _ h1
+  · rw [h1]
+
 end ThermoVerif.Reaction
